@@ -100,9 +100,12 @@ def readVal (s : String) : Option Val :=
   | some (v, []) => some v
   | _ => none
 
+def hexOrDash (b : List Byte) : String := if b.isEmpty then "-" else toHex b
+
 /-! ### data sources: the model runs on `Gen` (regenerated from /repo), the oracle on `Spec` -/
 
 structure Source where
+  isOracle : Bool
   reqRoles : Cfg → List (String × Ty)
   respRoles : Cfg → List (String × Ty)
   adExtRoles : Cfg → List (String × Ty)
@@ -202,8 +205,6 @@ def specAdatCase (c : Cfg) (flavour : String) (rp : List Byte) (mask count : Nat
     | some b => "ok " ++ toHex b
     | none => s!"err {Spec.statusOther}"
 
-def hexOrDash (b : List Byte) : String := if b.isEmpty then "-" else toHex b
-
 def genU2fsCase (cap : Nat) (prior : List Byte) (r : U2fResp) : String :=
   let (buf, ok) := u2fSerialize cap r prior
   (if ok then "ok " else "err ") ++ hexOrDash buf
@@ -265,7 +266,7 @@ def genCall1 (arms : List Arm) (rpcOk : Bool) (version : String) (entry variant 
       (if variant = "Version" then " " ++ toHex version.toUTF8.toList else "")
 
 def genSource : Source :=
-  { reqRoles := Gen.reqRoles, respRoles := Gen.respRoles, adExtRoles := Gen.adExtRoles,
+  { isOracle := false, reqRoles := Gen.reqRoles, respRoles := Gen.respRoles, adExtRoles := Gen.adExtRoles,
     reqTables := Gen.reqTables, respCase := genRespCase, adatCase := genAdatCase, u2fParse := ctap1Parse Gen.controlByteTryFrom,
     u2fsCase := genU2fsCase, regnewCase := genRegnewCase,
     call2Case := genCall2 Gen.dispatch2 ((Gen.statusCodes.lookup Gen.largeBlobsDefaultError).getD 999) Gen.rpc2Delegates,
@@ -277,7 +278,7 @@ def genSource : Source :=
     credProtect := firstMatch Gen.credProtectTryFrom }
 
 def specSource : Source :=
-  { reqRoles := Spec.reqRoles, respRoles := Spec.respRoles, adExtRoles := Spec.adExtRoles,
+  { isOracle := true, reqRoles := Spec.reqRoles, respRoles := Spec.respRoles, adExtRoles := Spec.adExtRoles,
     reqTables := specReqTables, respCase := specRespCase, adatCase := specAdatCase, u2fParse := fun a b c d => .ret (Spec.u2fParse a b c d),
     u2fsCase := specU2fsCase, regnewCase := specRegnewCase,
     call2Case := genCall2 (specArms Spec.dispatch2) Spec.statusInvalidCommand true,
@@ -330,6 +331,29 @@ def handle (src : Source) (line : String) : String :=
      | some c =>
        match tyRef src c ty, readVal val with
        | some t, some v => let b := encode t v; if b.isEmpty then "-" else toHex b
+       | _, _ => "bad-case")
+  | ["rt", cfg, ty, val] =>
+    (match parseCfg cfg with
+     | none => "bad-case"
+     | some c =>
+       match tyRef src c ty, readVal val with
+       | some t, some v =>
+         let b := encode t v
+         if src.isOracle then s!"ok {hexOrDash b} {showVal v}"      -- the property: the value comes back
+         else (match decode t b with
+               | .ok (v2, _) => s!"ok {hexOrDash b} {showVal v2}"
+               | .error e => showErr e ++ " after " ++ toHex b)
+       | _, _ => "bad-case")
+  | ["rtb", cfg, ty, hex] =>
+    (match parseCfg cfg with
+     | none => "bad-case"
+     | some c =>
+       match tyRef src c ty, fromHex hex with
+       | some t, some bs =>
+         if src.isOracle then s!"ok {hexOrDash bs}"                   -- the property: the bytes come back
+         else (match decode t bs with
+               | .ok (v, _) => s!"ok {hexOrDash (encode t v)}"
+               | .error e => showErr e)
        | _, _ => "bad-case")
   | ["req", cfg, hex] =>
     (match parseCfg cfg, fromHex hex with
